@@ -5,6 +5,7 @@ import GeosModel.Model.Num.Parse
 import GeosModel.Model.WKT.Write
 import GeosModel.Model.WKT.Read
 import GeosModel.Model.WKT.Spec
+import GeosModel.Model.GeoJSON.Roundtrip
 /-! Driver for C10 (`drv_c10 <stream>`):
   fmt        `<bits16> <precision -1..> <trim 0|1>`      → `<printDouble string | -> <writer string> <bits of strtod(writer string)>`
   wkt-write  `<trim> <precision> <dim> <old3d> <srid> <gtree…>` → the model writer's string
@@ -89,8 +90,20 @@ def wktClass (line : String) : String :=
     | _ => "bad-gtree"
   | none => "bad-line"
 
+/-- `<indent> <srid> <gtree>` → the tree GeoJSON write+read is specified to return -/
+def geojson (line : String) : String :=
+  match Driver.tokens line with
+  | _ :: r =>
+    match Driver.GTreeIO.parseGeom r with
+    | some (g, []) =>
+      match GeoJSON.roundtrip g.g with
+      | some g' => Driver.GTreeIO.showGeom ⟨0, g'⟩
+      | none => "WRITE-ERR"
+    | _ => "bad-gtree"
+  | _ => "bad-line"
+
 def handlers : List (String × (String → String)) :=
-  [("fmt", fmt), ("wkt-write", wktWrite), ("wkt-read", wktRead), ("wkt-rt", wktRt), ("wkt-class", wktClass)]
+  [("fmt", fmt), ("wkt-write", wktWrite), ("wkt-read", wktRead), ("wkt-rt", wktRt), ("wkt-class", wktClass), ("geojson", geojson)]
 
 end Driver.C10
 
